@@ -505,14 +505,14 @@ func runResponder(hist []*pkt, nackFor []uint16, reuse, rtx bool) ([]string, err
 	if _, err := c.readRTCP(rr); err != nil {
 		return nil, err
 	}
-	// the NACK is answered on goroutines of the interceptor: Close waits for them (C11), and so does the goroutine count; the count alone
-	// proved too weak a signal on a loaded machine (a baseline taken while a helper of the previous run was still counted)
-	_ = ic.Close()
+	// the NACK is answered on goroutines of the interceptor; the baseline is exact because the run starts from an idle process (kit.Idle).
+	// (Closing first would not do: Close clears the buffers, and a resend goroutine that has not looked its packets up yet finds nothing.)
 	kit.WaitGoroutines(base, 10*time.Second)
 	var out []string
 	for _, s := range sink.Calls()[before:] {
 		out = append(out, descRTP(s, rtx))
 	}
+	_ = ic.Close()
 
 	return out, nil
 }
